@@ -2,7 +2,8 @@ package c17
 
 // record.go — observation at the keystore API boundary: a wrapper around api.MutableKeyStore that records
 // {thread/handle, op, args, call seq, return seq, result} for every key-ring operation with one logical clock,
-// and reads whole ring states through the public getters.
+// and reads whole ring states — the COMPLETE view of every key — through the public getters (ksdump.ViewRing): after OpenKeyRing /
+// OpenKeyRingRW, after every ring-level update whether acknowledged or refused, and on demand through a held ring handle (View).
 
 import (
 	"crypto/sha256"
@@ -16,6 +17,8 @@ import (
 	"github.com/cossacklabs/acra/keystore/v2/keystore/api"
 	"github.com/cossacklabs/acra/keystore/v2/keystore/asn1"
 	"github.com/cossacklabs/acra/keystore/v2/keystore/crypto"
+
+	"verif/harness/internal/rig/ksdump"
 )
 
 const noKey = -1 // asn1.NoKey
@@ -28,23 +31,83 @@ func dg(b []byte) string {
 	return hex.EncodeToString(h[:6])
 }
 
-// keyView is what the API shows about one key of a ring; key material only as digests of the plaintext.
+// mat is how key material appears in a view: the plaintext bytes in hex. Where a getter gave no bytes the view holds
+// "!" + the class of its error (see ksdump: destroyed | noformat | nodata | invalidformat | err:<text>).
+func mat(b []byte) string { return hex.EncodeToString(b) }
+
+func matField(f ksdump.Field) string {
+	if f.Err != "" {
+		return "!" + f.Err
+	}
+	return mat(f.Val)
+}
+
+const (
+	matNoFormat  = "!noformat"
+	matNoData    = "!nodata"
+	matDestroyed = "!destroyed"
+)
+
+// hasMat: the view holds bytes (not an error class) there.
+func hasMat(s string) bool { return s != "" && s[0] != '!' }
+
+func shortMat(s string) string {
+	if !hasMat(s) {
+		return s
+	}
+	b, _ := hex.DecodeString(s)
+	return dg(b)
+}
+
+func formatName(f int) string {
+	switch api.KeyFormat(f) {
+	case api.ThemisKeyPairFormat:
+		return "pair"
+	case api.ThemisSymmetricKeyFormat:
+		return "sym"
+	}
+	return fmt.Sprintf("format%d", f)
+}
+
+// keyView is the COMPLETE view the API gives of one key of a ring through one handle: state, validity (whole seconds, the
+// precision of a stored ring), the list of data formats, and the key material itself — plaintext bytes (hex) of the public /
+// private key of the key-pair format and of the symmetric key of the symmetric format, or the class of the getter's error.
 type keyView struct {
 	Seq   int    `json:"seq"`
 	State int    `json:"state"`
+	Since int64  `json:"since,omitempty"`
+	Until int64  `json:"until,omitempty"`
+	Fmts  string `json:"fmts"`
 	Pub   string `json:"pub,omitempty"`
 	Priv  string `json:"priv,omitempty"`
 	Sym   string `json:"sym,omitempty"`
 }
 
 func (k keyView) data() string {
-	if k.Pub == "" && k.Priv == "" && k.Sym == "" {
+	if !hasMat(k.Pub) && !hasMat(k.Priv) && !hasMat(k.Sym) {
+		if k.Pub == matNoFormat && k.Priv == matNoFormat && k.Sym == matNoFormat {
+			return "NO-DATA"
+		}
 		return "-"
 	}
-	return k.Pub + "/" + k.Priv + "/" + k.Sym
+	f := func(s string) string {
+		if s == matNoFormat {
+			return ""
+		}
+		return shortMat(s)
+	}
+	return f(k.Pub) + "/" + f(k.Priv) + "/" + f(k.Sym)
 }
 
-func (k keyView) String() string { return fmt.Sprintf("%d:%d:%s", k.Seq, k.State, k.data()) }
+func (k keyView) String() string {
+	return fmt.Sprintf("%d:%d:%s[%s]", k.Seq, k.State, k.data(), k.Fmts)
+}
+
+// long shows every field (violation details).
+func (k keyView) long() string {
+	return fmt.Sprintf("seq=%d state=%s valid=%d..%d formats=[%s] pub=%s priv=%s sym=%s", k.Seq, api.KeyState(k.State), k.Since, k.Until, k.Fmts,
+		shortMat(k.Pub), shortMat(k.Priv), shortMat(k.Sym))
+}
 
 // ringState is a whole key ring as seen through the API (ring order = oldest first).
 type ringState struct {
@@ -70,6 +133,20 @@ func (s ringState) String() string {
 	return out
 }
 
+func (s ringState) long() []string {
+	if !s.Exists {
+		return []string{"absent"}
+	}
+	out := []string{fmt.Sprintf("current=%d", s.Cur)}
+	for _, k := range s.Keys {
+		out = append(out, k.long())
+	}
+	if s.Bad != "" {
+		out = append(out, "BAD: "+s.Bad)
+	}
+	return out
+}
+
 func (s ringState) key(seq int) *keyView {
 	for i := range s.Keys {
 		if s.Keys[i].Seq == seq {
@@ -79,76 +156,76 @@ func (s ringState) key(seq int) *keyView {
 	return nil
 }
 
-// snapshot reads everything the API exposes about an opened ring. Only local getters are used (no backend calls).
+// snapshot reads everything the API exposes about an opened ring THROUGH THAT RING OBJECT (ksdump's ring-level view).
+// Only local getters are used (no backend calls): the result is the handle's view, which may be older than the storage.
 func snapshot(ring api.KeyRing) ringState {
+	v := ksdump.ViewRing(ring)
 	st := ringState{Exists: true, Cur: noKey}
-	seqs, err := ring.AllKeys() // newest to oldest
-	if err != nil {
-		st.Bad = "AllKeys: " + err.Error()
-		return st
-	}
-	for i := len(seqs) - 1; i >= 0; i-- {
-		seq := seqs[i]
-		kv := keyView{Seq: seq}
-		state, err := ring.State(seq)
-		if err != nil {
-			st.Bad = fmt.Sprintf("State(%d): %v", seq, err)
-			return st
+	bad := func(format string, a ...interface{}) {
+		if st.Bad == "" {
+			st.Bad = fmt.Sprintf(format, a...)
 		}
-		kv.State = int(state)
-		if state != api.KeyDestroyed {
-			formats, err := ring.Formats(seq)
-			if err != nil {
-				st.Bad = fmt.Sprintf("Formats(%d): %v", seq, err)
-				return st
-			}
-			for _, f := range formats {
-				switch f {
-				case api.ThemisKeyPairFormat:
-					pub, err := ring.PublicKey(seq, f)
-					if err != nil {
-						st.Bad = fmt.Sprintf("PublicKey(%d): %v", seq, err)
-						return st
-					}
-					kv.Pub = dg(pub)
-					priv, err := ring.PrivateKey(seq, f)
-					if err != nil && err != api.ErrNoKeyData {
-						st.Bad = fmt.Sprintf("PrivateKey(%d): %v", seq, err)
-						return st
-					}
-					kv.Priv = dg(priv)
-				case api.ThemisSymmetricKeyFormat:
-					sym, err := ring.SymmetricKey(seq, f)
-					if err != nil {
-						st.Bad = fmt.Sprintf("SymmetricKey(%d): %v", seq, err)
-						return st
-					}
-					kv.Sym = dg(sym)
-				}
+	}
+	if v.Panic != "" {
+		bad("getter panicked: %s", v.Panic)
+	}
+	if v.ListErr != "" {
+		bad("AllKeys: %s", v.ListErr)
+	}
+	for _, e := range v.Keys {
+		kv := keyView{Seq: e.Seq, State: e.State, Since: e.Since, Until: e.Until, Pub: matField(e.Pub), Priv: matField(e.Priv), Sym: matField(e.Sym)}
+		names := make([]string, len(e.Formats))
+		for i, f := range e.Formats {
+			names[i] = formatName(f)
+		}
+		kv.Fmts = strings.Join(names, ",")
+		switch {
+		case e.StateErr != "":
+			bad("State(%d): %s", e.Seq, e.StateErr)
+		case e.ValidErr != "":
+			bad("ValidSince/ValidUntil(%d): %s", e.Seq, e.ValidErr)
+		case e.FormatsErr != "":
+			bad("Formats(%d): %s", e.Seq, e.FormatsErr)
+		}
+		// a getter that fails for a reason other than "this key has no such data" means the key cannot be read (e.g. decryption)
+		for _, f := range []struct{ name, v string }{{"PublicKey", kv.Pub}, {"PrivateKey", kv.Priv}, {"SymmetricKey", kv.Sym}} {
+			if strings.HasPrefix(f.v, "!err:") {
+				bad("%s(%d): %s", f.name, e.Seq, f.v[len("!err:"):])
 			}
 		}
 		st.Keys = append(st.Keys, kv)
 	}
-	cur, err := ring.CurrentKey()
-	if err == nil {
-		st.Cur = cur
-	} else if err != api.ErrNoCurrentKey {
-		st.Bad = "CurrentKey: " + err.Error()
+	if v.CurrentErr != "" {
+		bad("CurrentKey: %s", v.CurrentErr)
+	} else if !v.NoCurrent {
+		st.Cur = v.Current
 	}
 	return st
 }
 
+// describeKey: what a view must show of a key that was added from this description.
 func describeKey(k api.KeyDescription) keyView {
-	kv := keyView{State: int(api.KeyPreActive)}
+	kv := keyView{State: int(api.KeyPreActive), Since: k.ValidSince.Unix(), Until: k.ValidUntil.Unix(), Pub: matNoFormat, Priv: matNoFormat, Sym: matNoFormat}
+	var names []string
 	for _, d := range k.Data {
+		names = append(names, formatName(int(d.Format)))
 		switch d.Format {
 		case api.ThemisKeyPairFormat:
-			kv.Pub, kv.Priv = dg(d.PublicKey), dg(d.PrivateKey)
+			kv.Pub, kv.Priv = mat(d.PublicKey), mat(d.PrivateKey)
+			if len(d.PrivateKey) == 0 {
+				kv.Priv = matNoData
+			}
 		case api.ThemisSymmetricKeyFormat:
-			kv.Sym = dg(d.SymmetricKey)
+			kv.Sym = mat(d.SymmetricKey)
 		}
 	}
+	kv.Fmts = strings.Join(names, ",")
 	return kv
+}
+
+// destroyedView: what a view must show of that key once it has been destroyed.
+func destroyedView(k keyView) keyView {
+	return keyView{Seq: k.Seq, State: int(api.KeyDestroyed), Since: k.Since, Until: k.Until, Pub: matDestroyed, Priv: matDestroyed, Sym: matDestroyed}
 }
 
 // Operation kinds.
@@ -162,6 +239,7 @@ const (
 	opImportOpen = "ImportOpen" // first half of an import: the ring is made to exist (derived record, see model.go)
 	opImportNX   = "ImportNX"   // default delegate: abort when the ring exists
 	opImportOW   = "ImportOW"   // delegate decides "overwrite"
+	opView       = "View"       // complete view read through an already open ring handle (local getters, no store access)
 )
 
 // opRec is one recorded operation on one key ring.
@@ -177,7 +255,11 @@ type opRec struct {
 	Ret    int64      `json:"ret"`
 	Err    string     `json:"err,omitempty"`
 	OutSeq int        `json:"seq,omitempty"` // AddKey result
-	Out    *ringState `json:"out,omitempty"` // Read/OpenRW: what was seen; successful writes: the handle's view after commit
+	Out    *ringState `json:"out,omitempty"` // Read/OpenRW/View: what was seen; writes (acknowledged AND refused): the ring handle's view after the call
+	// H names the ring handle (one OpenKeyRingRW result) a ring-level operation went through; Unch: the view after a REFUSED
+	// write equals the view the same ring handle showed before it.
+	H    string `json:"h,omitempty"`
+	Unch bool   `json:"unch,omitempty"`
 }
 
 func (o *opRec) String() string {
@@ -193,8 +275,18 @@ func (o *opRec) String() string {
 	case opImportNX, opImportOW:
 		fmt.Fprintf(&b, "(%s)", o.Imp)
 	}
+	if o.H != "" {
+		fmt.Fprintf(&b, " via %s", o.H)
+	}
 	if o.Err != "" {
 		fmt.Fprintf(&b, " -> ERR %s", o.Err)
+		if o.Out != nil {
+			if o.Unch {
+				fmt.Fprintf(&b, " | handle's view unchanged: %s", o.Out)
+			} else {
+				fmt.Fprintf(&b, " | handle's view now: %s", o.Out)
+			}
+		}
 		return b.String()
 	}
 	if o.Kind == opAddKey {
@@ -248,6 +340,8 @@ type recKS struct {
 	t   int
 	// last successful or failed open per ring by this thread (used to explain getter results); owned by the thread.
 	last map[string]*opRec
+	// ring handles opened by this thread so far (names them)
+	opened int
 }
 
 func newRecKS(inner api.MutableKeyStore, rec *recorder, thread int) *recKS {
@@ -294,9 +388,11 @@ func (k *recKS) OpenKeyRingRW(path string) (api.MutableKeyRing, error) {
 	}
 	s := snapshot(ring)
 	o.Out = &s
+	k.opened++
+	o.H = fmt.Sprintf("t%d#%d", k.t, k.opened)
 	k.rec.add(o)
 	k.last[path] = o
-	return &recRing{MutableKeyRing: ring, ks: k, path: path}, nil
+	return &recRing{MutableKeyRing: ring, ks: k, path: path, id: o.H, last: &s}, nil
 }
 
 // owDelegate answers "overwrite" for every conflict.
@@ -327,16 +423,39 @@ type recRing struct {
 	api.MutableKeyRing
 	ks   *recKS
 	path string
+	id   string
+	last *ringState // the view recorded last through this ring handle
+	// what the last update through this handle was and whether it was refused (counters of the views taken afterwards)
+	lastKind    string
+	lastRefused bool
 }
 
+// finish completes the record of an update: whether acknowledged or refused, the complete view through this ring handle is
+// read immediately afterwards (local getters only: no back-end call, hence no scheduling point and nothing another thread
+// could do in between).
 func (r *recRing) finish(o *opRec, err error) {
 	o.Ret = r.ks.rec.clk.tick()
 	o.Err = errStr(err)
-	if err == nil {
-		s := snapshot(r.MutableKeyRing)
-		o.Out = &s
+	o.H = r.id
+	s := snapshot(r.MutableKeyRing)
+	o.Out = &s
+	if err != nil && r.last != nil {
+		o.Unch = sameState(s, *r.last)
 	}
+	r.last = &s
+	r.lastKind, r.lastRefused = o.Kind, err != nil
 	r.ks.rec.add(o)
+}
+
+// view records a complete read through this ring handle (no store access).
+func (r *recRing) view() ringState {
+	o := &opRec{Thread: r.ks.t, Ring: r.path, Kind: opView, H: r.id}
+	o.Call = r.ks.rec.clk.tick()
+	s := snapshot(r.MutableKeyRing)
+	o.Ret = r.ks.rec.clk.tick()
+	o.Out = &s
+	r.ks.rec.add(o)
+	return s
 }
 
 // AddKey records the operation.
